@@ -134,4 +134,32 @@ CHECKS["C09"] = {
     "note": TB,
     "technique": "TLC translation validation of generated constant-folding programs",
 }
+CHECKS["C06"] = {
+    "category": "translation_validation",
+    "text": "9 value-producing side-effecting operations (postfix ++/-- on a local and a register, bundled / generated / nested calls, statement-"
+            "expressions) in 13 positions, surrounded by non-commuting updates of the object they modify, and seeded pairs of them are compiled in both "
+            "layouts; TLC compares the final state with the C semantics (exactly once, in order, only when selected) on every low-byte input; Sorts "
+            "tracks locals that may be read before they are written",
+    "note": TB + "; four listed findings (unguarded hybrids in ?: arms, unused hybrid statements, && right operands, loop conditions) are keyed by "
+                 "shape predicates of spec/Shapes.tla",
+    "technique": "TLC translation validation of generated hybrid-placement programs",
+}
+CHECKS["C08"] = {
+    "category": "translation_validation",
+    "text": "15 generated sub-routines registered through add_sub_routine plus the bundled ones; 64 argument/return type pairs, single calls, expressions "
+            "with 2..4 calls, name clashes, live temporaries, calls in loops/conditions/arguments; compiled on long-lived compilers and on a fresh "
+            "compiler per program; TLC executes the caller with the observed callee bodies inlined by term substitution in the flat IL namespace and "
+            "compares with C call semantics (parameter conversion, callee-local scope, return conversion, frame condition on caller locals)",
+    "note": TB + "; by-reference register operands are bound by spelling as the compiler does",
+    "technique": "TLC translation validation with inlined observed callee bodies",
+}
+CHECKS["C15"] = {
+    "category": "translation_validation",
+    "text": "each construct without a translation (break, continue, goto, labels, switch/case, comma, while, do, unknown calls, [] . -> prefix ++/-- * &) "
+            "is placed at 8 statement / 6 expression positions around supported code; if the compiler returns code, CSem!HasMeaning decides whether that "
+            "is itself the violation (goto, labels, switch, member access, ...) or whether the code must be right (while, do, break/continue, comma, "
+            "prefix: TLC validates it) and every declared effect must be sequenced",
+    "note": TB,
+    "technique": "TLC-enumerated unsupported-construct placements + translation validation of whatever is accepted",
+}
 NOT_YET = {}
